@@ -958,6 +958,7 @@ namespace
 
       case DW_OP_addr:
       case DW_OP_call_ref:	// XXX yield a DIE?
+      case DW_OP_GNU_variable_value:	// XXX yield a DIE?
 	return single_constant ({op->number, &hex_constant_dom});
 
       case DW_OP_deref_size:
@@ -973,6 +974,12 @@ namespace
       case DW_OP_constu:
       case DW_OP_call2:
       case DW_OP_call4:
+      case DW_OP_addrx:
+      case DW_OP_constx:
+      case DW_OP_GNU_addr_index:
+      case DW_OP_GNU_const_index:
+      case DW_OP_convert:
+      case DW_OP_reinterpret:
       case DW_OP_GNU_convert:		// XXX CU-relative offset to DIE
       case DW_OP_GNU_reinterpret:	// XXX CU-relative offset to DIE
       case DW_OP_GNU_parameter_ref:	// XXX CU-relative offset to DIE
@@ -990,6 +997,9 @@ namespace
 	return single_constant (signed_cst (op->number, &dec_constant_dom));
 
       case DW_OP_bit_piece:
+      case DW_OP_regval_type:
+      case DW_OP_deref_type:
+      case DW_OP_xderef_type:
       case DW_OP_GNU_regval_type:
       case DW_OP_GNU_deref_type:
 	return two_constants ({op->number, &dec_constant_dom},
@@ -999,6 +1009,7 @@ namespace
 	return two_constants ({op->number, &dec_constant_dom},
 			      signed_cst (op->number2, &dec_constant_dom));
 
+      case DW_OP_implicit_pointer:
       case DW_OP_GNU_implicit_pointer:
 	{
 	  Dwarf_Die die;
@@ -1026,6 +1037,7 @@ namespace
 			     std::make_unique <null_producer> ());
 	}
 
+      case DW_OP_entry_value:
       case DW_OP_GNU_entry_value:
 	{
 	  Dwarf_Attribute attr;
@@ -1037,6 +1049,7 @@ namespace
 			     std::make_unique <null_producer> ());
 	}
 
+      case DW_OP_const_type:
       case DW_OP_GNU_const_type:
 	{
 	  Dwarf_Attribute *attr = const_cast <Dwarf_Attribute *> (&at);
